@@ -253,15 +253,39 @@ class Cascade:
                             break
                         p = py.parents.get(p)
                         hops += 1
+                    var0 = None
                     if dest is None and isinstance(st, ast.Assign) and isinstance(st.targets[0], ast.Name):
-                        # intr = FortranInterface(...): find later self.X.append/extend(intr...)
-                        var = st.targets[0].id
-                        for m in ast.walk(ast.Module(body=arm.body, type_ignores=[])):
-                            if isinstance(m, ast.Call) and list_dests(m) and m.args and \
-                                    any(isinstance(x, ast.Name) and x.id == var for x in ast.walk(m.args[0])):
-                                for dd in list_dests(m):
-                                    if dd not in (dest or "").split("|"):
-                                        dest = (dest + "|" if dest else "") + dd
+                        var0 = st.targets[0].id          # intr = FortranInterface(...) / items = [Fortran...(x) for x in ...]
+                    elif dest is None:
+                        # collected in a local first: `items.append(FortranX(...))` ... `self.X.extend(items)`
+                        p = py.parents.get(n)
+                        hops = 0
+                        while p is not None and hops < 6 and not isinstance(p, ast.stmt):
+                            if isinstance(p, ast.Call) and isinstance(p.func, ast.Attribute) and p.func.attr in ("append", "extend", "add") \
+                                    and isinstance(p.func.value, ast.Name):
+                                var0 = p.func.value.id
+                                break
+                            p = py.parents.get(p)
+                            hops += 1
+                    if var0 is not None:
+                        # follow the local to the self.X.append/extend(...) it ends up in (through further locals)
+                        todo, seen_v = [var0], set()
+                        while todo:
+                            var = todo.pop()
+                            if var in seen_v:
+                                continue
+                            seen_v.add(var)
+                            for m in ast.walk(ast.Module(body=arm.body, type_ignores=[])):
+                                if not (isinstance(m, ast.Call) and m.args and
+                                        any(isinstance(x, ast.Name) and x.id == var for x in ast.walk(m.args[0]))):
+                                    continue
+                                if list_dests(m):
+                                    for dd in list_dests(m):
+                                        if dd not in (dest or "").split("|"):
+                                            dest = (dest + "|" if dest else "") + dd
+                                elif isinstance(m.func, ast.Attribute) and m.func.attr in ("append", "extend", "add") and \
+                                        isinstance(m.func.value, ast.Name) and len(seen_v) < 4:
+                                    todo.append(m.func.value.id)
                     perm = None
                     r = py.resolve_method(last, "__init__")
                     pidx = 3
